@@ -106,6 +106,16 @@ CHECKS = {
         note="Trusted: TLC, the stand-in compiler (javac-format output, parsed by the real analysis), scripted ProgramProcessor. "
              "Event order in pool mode is the order of atomic appends to one log.",
     ),
+    "C11": dict(
+        category="model_checking",
+        technique="TLA+ model of translator objects and observed texts (HTranslate); TLC-enumerated call histories executed with the real "
+                  "translators on generated / erased / overwritten programs; trace validation of Functional and ProgramUnchanged per call",
+        text="Every history of <=2 (thorough: <=3) calls over {reused, other-language, fresh translator} x {p, erased p, overwritten p, q} plus "
+             "random longer histories, for base programs of all four languages; the same key must always give the same text and the program's "
+             "pickle snapshot must not change.",
+        design_ref="DESIGN.md §5 C11",
+        note="Trusted: TLC, pickle as the snapshot function, sha1 digests. Programs are sampled by seed; histories are exhaustive to the stated length.",
+    ),
 }
 
 NOT_YET = "check not built yet (work in progress in this session; see DESIGN.md §10 for the order of work)"
